@@ -60,6 +60,7 @@ class Checker:
         self.tb=Table(self.top)
         self.classes={}
         self.alarms=[]; self.stats=collections.Counter()
+        self.ctx=[]      # syntactic context of the expression being typed (only 'cond' is recorded)
         self.void=self.bt.get_void_type().name
         self.boolean=self.bt.get_boolean_type().name
         # builtins
@@ -316,6 +317,7 @@ class Checker:
             if isinstance(e.cond, ast.Is) and isinstance(e.cond.lexpr, ast.Variable) and not e.cond.operator.is_not:
                 tsc.smart[e.cond.lexpr.name]=conv_any(e.cond.rexpr)
             for br,s2,k in ((e.true_branch,tsc,'cond-true'),(e.false_branch,Scope(self,sc),'cond-false')):
+                self.ctx.append('cond')
                 try:
                     if expected is None:
                         # no type is expected at this position (statement position): nothing to judge
@@ -323,6 +325,7 @@ class Checker:
                     n0=len(self.alarms); self.expect(k,path,self.synth(br,path,s2,expected),expected)
                     if len(self.alarms)>n0 and self.alarms[-1][0]==k: self.alarms[-1]=self.alarms[-1][:4]+(str(e).replace(chr(10),' ')[:420],)
                 except Unknown as u: self.stats['unknown:'+str(u)]+=1
+                finally: self.ctx.pop()
             return T if expected is None else expected
         if isinstance(e, ast.New):
             ct=e.class_type
@@ -429,7 +432,7 @@ class Checker:
         missing=[p.name for p in d.type_parameters if p.name not in determinable]
         if missing and not have_expected and self.lang=='kotlin':
             self.stats['diamond-uninferable']+=1
-            self.alarm('kotlin-cannot-infer-type-argument',path,T,expected,'type parameter(s) %s of %s occur in no constructor parameter'%(missing,T[1]))
+            self.alarm('kotlin-cannot-infer-type-argument',path,T,expected,'type parameter(s) %s of %s occur in no constructor parameter'%(missing,T[1])+(' [in conditional branch]' if 'cond' in self.ctx else ''))
         m={p.name:a for p,a in zip(d.type_parameters,T[2])}
         for a,f in zip(e.args,d.fields):
             try:
@@ -517,7 +520,7 @@ class Checker:
                 except Unknown: pass
             missing=[tp_.name for tp_ in fdecl.type_parameters if tp_.name not in det]
             if missing:
-                self.alarm('kotlin-cannot-infer-type-argument',path,None,expected,'type parameter(s) %s of %s cannot be inferred'%(missing,e.func))
+                self.alarm('kotlin-cannot-infer-type-argument',path,None,expected,'type parameter(s) %s of %s cannot be inferred'%(missing,e.func)+(' [in conditional branch]' if 'cond' in self.ctx else ''))
         # args
         ps=list(fdecl.params); args=list(e.args)
         named={a.name for a in args if a.name}
